@@ -1,12 +1,22 @@
 ------------------------------ MODULE MCDaemon ------------------------------
 (* Design check of the daemon loop for all outcome / signal histories.       *)
+(* The loop is one select! over the timer and the signal streams; a run is   *)
+(* awaited inline, so a signal that arrives while a run is in progress stays *)
+(* pending in its stream and is served when the run has ended.               *)
+(* Deviations (negative controls, TLC must refute each):                     *)
+(*   ResetOnHup = TRUE   SIGHUP re-creates the schedule: the delay falls     *)
+(*                       back to one minute in the middle of a streak        *)
+(*   SwallowHup = TRUE   a SIGHUP that arrives during a run is consumed      *)
+(*                       there ("already running") and triggers nothing      *)
 EXTENDS Daemon
-CONSTANTS Period, MaxRuns, FixCap
-VARIABLES now, next, backoff, state, nfail, prevDelay, lastFinish, lastOk, runs, hup, viol
-vars == <<now, next, backoff, state, nfail, prevDelay, lastFinish, lastOk, runs, hup, viol>>
+CONSTANTS Period, MaxRuns, FixCap, ResetOnHup, SwallowHup
+VARIABLES now, next, backoff, state, nfail, prevDelay, lastFinish, lastOk, runs, hup, viol,
+          hupPending,   \* a SIGHUP arrived while a run was in progress and has not been served
+          owed          \* ghost: a SIGHUP arrived and no run has started since
+vars == <<now, next, backoff, state, nfail, prevDelay, lastFinish, lastOk, runs, hup, viol, hupPending, owed>>
 
 Init == /\ now = 0 /\ next = 0 /\ backoff = MinBackoff /\ state = "waiting" /\ nfail = 0 /\ prevDelay = 0
-        /\ lastFinish = 0 /\ lastOk = TRUE /\ runs = 0 /\ hup = FALSE /\ viol = {}
+        /\ lastFinish = 0 /\ lastOk = TRUE /\ runs = 0 /\ hup = FALSE /\ viol = {} /\ hupPending = FALSE /\ owed = FALSE
 
 (* the timer fires: a run starts (duration 0..1 units does not matter for the delays: measured from the finish) *)
 Tick == /\ state = "waiting" /\ runs < MaxRuns /\ now' = next /\ state' = "running"
@@ -15,25 +25,40 @@ Tick == /\ state = "waiting" /\ runs < MaxRuns /\ now' = next /\ state' = "runni
              (IF runs = 0 \/ hup THEN {}
               ELSE IF lastOk THEN (IF AfterSuccessOk(Period, delay) THEN {} ELSE {"PeriodNotRestored"})
               ELSE IF RetryDelayOk(Period, nfail, prevDelay, delay) THEN {} ELSE {"BadRetryDelay"})
-        /\ prevDelay' = IF lastOk \/ hup THEN 0 ELSE next - lastFinish
-        /\ hup' = FALSE
-        /\ UNCHANGED <<next, backoff, nfail, lastFinish, lastOk, runs>>
+        (* the delay the next retry is compared with: a run triggered by SIGHUP cut the scheduled delay short - it was *)
+        (* at least the one before (one minute after a first failure); the streak of failures goes on over a SIGHUP   *)
+        /\ prevDelay' = IF lastOk THEN 0 ELSE IF hup THEN (IF nfail = 1 THEN MinBackoff ELSE prevDelay) ELSE next - lastFinish
+        /\ hup' = FALSE /\ owed' = FALSE
+        /\ UNCHANGED <<next, backoff, nfail, lastFinish, lastOk, runs, hupPending>>
 RunEnds(ok) ==
   \E d \in {0, 7} :
      /\ state = "running" /\ now' = now + d /\ state' = "waiting" /\ runs' = runs + 1
      /\ lastFinish' = now + d /\ lastOk' = ok
-     /\ IF ok THEN /\ next' = now + d + Period /\ backoff' = MinBackoff /\ nfail' = 0
-              ELSE /\ next' = now + d + backoff /\ backoff' = NextBackoff(Period, backoff, FixCap) /\ nfail' = nfail + 1
-     /\ UNCHANGED <<prevDelay, hup, viol>>
+     /\ LET served == hupPending /\ ~SwallowHup IN
+        /\ IF ok THEN /\ next' = IF served THEN now + d ELSE now + d + Period
+                      /\ backoff' = MinBackoff /\ nfail' = 0
+                 ELSE /\ next' = IF served THEN now + d ELSE now + d + backoff
+                      /\ backoff' = IF served /\ ResetOnHup THEN MinBackoff ELSE NextBackoff(Period, backoff, FixCap)
+                      /\ nfail' = nfail + 1
+        /\ hup' = served /\ hupPending' = FALSE
+     /\ UNCHANGED <<prevDelay, viol, owed>>
 (* SIGHUP strictly inside the waiting interval: the next run starts at once *)
 Sighup == \E t \in {now + 1, next - 1} :
             /\ state = "waiting" /\ runs > 0 /\ runs < MaxRuns /\ t > now /\ t < next /\ ~hup
-            /\ now' = t /\ next' = t /\ hup' = TRUE
-            /\ UNCHANGED <<backoff, state, nfail, prevDelay, lastFinish, lastOk, runs, viol>>
+            /\ now' = t /\ next' = t /\ hup' = TRUE /\ owed' = TRUE
+            /\ backoff' = IF ResetOnHup THEN MinBackoff ELSE backoff
+            /\ UNCHANGED <<state, nfail, prevDelay, lastFinish, lastOk, runs, viol, hupPending>>
+(* ... or while a run is in progress: it stays pending *)
+SighupDuringRun ==
+  /\ state = "running" /\ runs < MaxRuns - 1 /\ ~hupPending
+  /\ hupPending' = TRUE /\ owed' = TRUE
+  /\ UNCHANGED <<now, next, backoff, state, nfail, prevDelay, lastFinish, lastOk, runs, hup, viol>>
 Sigterm == /\ state = "waiting" /\ runs > 0 /\ state' = "exited"
-           /\ UNCHANGED <<now, next, backoff, nfail, prevDelay, lastFinish, lastOk, runs, hup, viol>>
-Next == Tick \/ RunEnds(TRUE) \/ RunEnds(FALSE) \/ Sighup \/ Sigterm
+           /\ UNCHANGED <<now, next, backoff, nfail, prevDelay, lastFinish, lastOk, runs, hup, viol, hupPending, owed>>
+Next == Tick \/ RunEnds(TRUE) \/ RunEnds(FALSE) \/ Sighup \/ SighupDuringRun \/ Sigterm
 Spec == Init /\ [][Next]_vars
 Contract == viol = {}
 NeverBusy == state = "waiting" /\ runs > 0 /\ ~hup => next > lastFinish
+(* a SIGHUP is followed by a run at the earliest possible moment: while the loop waits and owes a run, its timer is due *)
+SighupServed == (state = "waiting" /\ owed) => next = now
 =============================================================================
